@@ -3,10 +3,10 @@ package main
 // Registration rules: PC-REG, REG-PAIR, REG-OVERWRITE, BT-REG, SG-REG.
 
 import (
-	"reflect"
 	"fmt"
 	"go/token"
 	"go/types"
+	"reflect"
 	"sort"
 	"strings"
 
@@ -17,12 +17,27 @@ type registration struct {
 	In      *ssa.Function // the RegisterCodecs function
 	T       types.Type    // registered Go type
 	Builder *ssa.Function
-	Schema  ssa.Value // argument of RegisterSchema, if any
+	Schema  ssa.Value     // argument of RegisterSchema, if any (structural reading)
+	Folded  *foldedSchema // the registered schema as folded (E-CP reading)
 	Pos     token.Pos
 	SPos    token.Pos
 }
 
+var regCache = map[*Program][]*registration{}
+
 func findRegistrations(P *Program) []*registration {
+	if r, ok := regCache[P]; ok {
+		return r
+	}
+	r := findRegistrations0(P)
+	regCache[P] = r
+	return r
+}
+
+func findRegistrations0(P *Program) []*registration {
+	if rs, ok := registrationsByFold(P); ok {
+		return rs
+	}
 	byType := map[string]*registration{}
 	var order []string
 	for _, sp := range []*ssa.Package{P.Time, P.Null, P.Avro} {
@@ -191,11 +206,11 @@ func ruleRegPair(c *Ctx) {
 	e := getBT(P)
 	for _, r := range findRegistrations(P) {
 		key := fmt.Sprintf("%s/pair[%s]", fnKey(r.In), typeKey(r.T))
-		if r.Builder == nil || r.Schema == nil {
+		if r.Builder == nil || !r.hasSchema() {
 			c.Bad(key, P.pos(r.Pos), "the type is registered with only one of codec builder and schema: encoding and schema generation would disagree")
 			continue
 		}
-		strs := schemaTypeStrings(r.Schema, 0)
+		strs := r.typeStrings()
 		var branch []string
 		for _, s := range strs {
 			if s != "union" && s != "null" {
